@@ -10,13 +10,13 @@ COMMON_NOTE = ("trusted: Lean 4.33 kernel; axioms propext / Classical.choice / Q
 
 # property -> (claimed?, level text, extra trusted/assumed, technique)
 CLAIMS = {
- "C20": ("Theorems: each constructor (new, init, from_vec/from_box, TooDeeView::new, TooDeeViewMut::new) accepts iff zero rule, non-overflowing product and fitting buffer, else panics (never ub); accepted results have the stated dimensions, the shape invariant and row-major cells; derived equality/hash are field-wise. Correspondence: every constructor x boundary dimensions {0..4,2^32,2^63,2^64-1}^2 x buffer lengths, conversions on all shapes, both profiles.",
+ "C20": ("Theorems: each constructor (new, init, from_vec/from_box, TooDeeView::new, TooDeeViewMut::new) accepts iff zero rule, non-overflowing product and fitting buffer, else panics (never ub); accepted results have the stated dimensions, the shape invariant and row-major cells; From<view>/From<view_mut> (row-by-row extend) gives exactly the view's dimensions and cells in row-major order with the invariant; derived equality/hash are field-wise. Correspondence: every constructor x boundary dimensions {0..4,2^32,2^63,2^64-1}^2 x buffer lengths, conversions on all shapes, both profiles.",
          "Vec / vec! / resize_with / derived Clone, PartialEq, Hash and the into_* conversions are modelled by specification",
          "Lean 4 proof (decision logic + invariant) + differential correspondence"),
  "C02": ("Theorems for owned arrays and (mutable) views under their invariants, both build modes, all coordinates < 2^64: in range, every accessor (Index<Coordinate>, Index<usize> then slice index, col(c)[r], _mut twins, unchecked getters) returns the one position pos(col,row) (= row*num_cols+col for an owned array), inside the buffer, and pos is injective; out of range every checked accessor panics, never ub — including wrap-around products in release. Correspondence: all shapes <= 4x4, nested views, boundary and wrap-provoking coordinates.",
          "slice indexing / get_unchecked modelled as window arithmetic with panic / ub outcomes",
          "Lean 4 proof (index arithmetic incl. usize wrap-around) + differential correspondence"),
- "C03": ("Theorems: for any parent (owned or view, hence any nesting depth) with its invariant and start <= end <= (C,R): all six view constructors succeed, the window has size end-start (or (0,0)), satisfies the view invariant again, and its cell (c,r) has the same root-buffer position as the parent's cell (start+c,r); any other start/end panics (never ub). Correspondence: all parents <= 3x3 x all start/end in {0..dim+1}^4 x 3 receiver kinds, depth 3, slice-built roots, writes through mutable views.",
+ "C03": ("Theorems: for any parent (owned or view, hence any nesting depth) with its invariant and start <= end <= (C,R): all six view constructors succeed, the window has size end-start (or (0,0)), satisfies the view invariant again, and its cell (c,r) has the same root-buffer position as the parent's cell (start+c,r); any other start/end panics (never ub); the window the property oracle computes is proved to be exactly the constructors' result. Correspondence: all parents <= 3x3 x all start/end in {0..dim+1}^4 x 3 receiver kinds, depth 3, slice-built roots, writes through mutable views.",
          "unchecked / checked slicing modelled as window arithmetic",
          "Lean 4 proof (window arithmetic, invariant preservation) + differential correspondence"),
  "C06": ("Theorems over the transcription of the raw-move code (ptr::copy as memmove on the allocation, ptr::write, set_len), for every capacity `reserve` may return and both build modes: with an honest iterator, insert_row/insert_col/push_* are accepted iff index <= dim and (length = other dim or the array is empty); the result is the original with the new line at index i (flat formula and rows-of-cells form `grid.insertIdx` / `zipWith insAt`), dimension grown by one, empty line into empty array stays (0,0), invariant kept, nothing leaked, no ub; any other index/length panics before any mutation (array unchanged). Correspondence: all shapes <= 4x4 x index 0..dim+1 x length 0..dim+1 x {u32, cell, zst} x capacities, plus random build-up histories.",
@@ -31,7 +31,7 @@ CLAIMS = {
  "C09": ("Same simulation for Col/ColMut (items = cell positions) plus indexing: it[i] is the i-th remaining cell for i < len and panics otherwise, also when i*(1+skip) wraps; col(c)/col_mut(c) of an owned array or view are WF and stand for the column's cells top to bottom, c out of range panics; yielded positions are distinct and inside the buffer. Correspondence as C08 with every column index 0..C and index steps.",
          "split_first/last(_mut), get_unchecked(_mut), checked slice index modelled as window arithmetic; Col and ColMut share one transcription",
          "Lean 4 proof (cursor invariant + simulation, index arithmetic incl. wrap-around) + differential correspondence"),
- "C04": ("General theorems about the two forms every in-place operation is proved to have (C13-C17): `gather buf (v.mapCells g)` (cell permutation) and `v.updCells buf h` (overwrite): the length is kept, every root-buffer position that is not a cell of the view keeps its content, and cell (c,r) receives exactly old cell g(c,r) resp. h(c,r) - with the same cell function as for an owned array (t.asView); positions and coordinates of a view are in bijection; every position handed out by rows_mut/col_mut/cells_mut is a cell of the view. Correspondence: every mutating operation on views at interior/edge/nested positions of all parents <= 4x4 with the whole parent compared.",
+ "C04": ("General theorems about the two forms every in-place operation is proved to have (C13-C17): `gather buf (v.mapCells g)` (cell permutation) and `v.updCells buf h` (overwrite): the length is kept, every root-buffer position that is not a cell of the view keeps its content, and cell (c,r) receives exactly old cell g(c,r) resp. h(c,r) - with the same cell function as for an owned array (t.asView); positions and coordinates of a view are in bijection; every position handed out by rows_mut/col_mut/cells_mut is a cell of the view; and the second sentence of the property literally: for every cell permutation and every overwrite, applying it through the view and copying the view out equals copying out first and applying the same cell function to the owned array (C04_same_effect_*). Correspondence: every mutating operation on views at interior/edge/nested positions of all parents <= 4x4 with the whole parent compared.",
          "the per-operation statements (swap family, fill, copies, sorts, translate, flips) live in C13-C17 and are re-checked by their own checks; this check covers the frame lemmas and the whole-parent correspondence",
          "Lean 4 proof (frame condition built into the spec form; bijection pos/coord) + differential correspondence"),
  "C10": ("Simulation theorems for FlattenExact over the row cursor (Cells/CellsMut and the IntoIterator forms): under Flat.WF the cursor stands for front ++ flatten(rows) ++ back; next, next_back, nth(j), nth_back(j) for every j, len/size_hint, last, fold, rfold and any word of them return what the ideal sequence returns; the internal loops end within two iterations; the debug_assert in nth never fires; no panic, no ub; cells() of an owned array is 0..C*R in order, of a view all its cell positions row-major, each exactly once. Correspondence: all shapes <= 3x3, views, nested, slice-built, exhaustive + random words with huge arguments, write-through via cells_mut/iter_mut.",
@@ -43,7 +43,7 @@ CLAIMS = {
  "C14": ("Theorems: copy_from_slice/clone_from_slice and copy_from_toodee/clone_from_toodee (trait defaults and TooDee overrides): sizes equal => destination cell (c,r) becomes source cell (c,r) (row-major for slices; any source view incl. strided) and nothing else changes; sizes differ => panic; all shapes incl. (0,0). copy_within (after the fix: overflow-free bounds checks): rectangles fit => destination rectangle = prior source rectangle for every relative placement (three arms: bottom-up, top-down, per-row memmove), everything else unchanged; otherwise panic. Correspondence: all shapes <= 3x3, all receivers, all source rectangles x destination corners incl. 2^64-1.",
          "copy_from_slice/clone_from_slice/slice::copy_within/chunks_exact/zip modelled by specification; copy and clone variants share one transcription",
          "Lean 4 proof (three loop invariants, pointwise buffer characterisation) + differential correspondence"),
- "C16": ("Theorems: build_swap_trace on any permutation p returns transpositions (i<j<n) whose application maps xs to ys with ys[k] = xs[p[k]], every unchecked index in range (in-place reuse handled); the stable side sort (List.mergeSort model of sort_by) yields a permutation that orders the keys and keeps ties in original order; applying the trace to every row = permuting whole columns (new column j = old column p[j] on every row; frame untouched); sort_by_row = that with the stable permutation, sort_unstable_by_row = that for every permutation the side sort may return; out-of-range row panics. Correspondence: all shapes <= 4x4 x every row index x 6 variants x root/Ext/view, keys over a 3-letter alphabet, wide arrays (40-70 columns) so unstable sorts really reorder ties; for unstable variants the harness's permutation is reconstructed and checked against the sort contract.",
+ "C16": ("Theorems: build_swap_trace on any permutation p returns transpositions (i<j<n) whose application maps xs to ys with ys[k] = xs[p[k]], every unchecked index in range (in-place reuse handled); the stable side sort (List.mergeSort model of sort_by) yields a permutation that orders the keys and keeps ties in original order; applying the trace to every row = permuting whole columns (new column j = old column p[j] on every row; frame untouched); sort_by_row = that with the stable permutation, sort_unstable_by_row = that for every permutation the side sort may return; the chosen row of the result is the old row permuted by p, hence ordered; out-of-range row panics. Correspondence: all shapes <= 4x4 x every row index x 6 variants x root/Ext/view, keys over a 3-letter alphabet, wide arrays (40-70 columns) so unstable sorts really reorder ties; for unstable variants the harness's permutation is reconstructed and checked against the sort contract.",
          "slice::sort_by (the unique stable sort) modelled by List.mergeSort; sort_unstable_by is a model input constrained by its contract (sorted permutation); the (usize,&T)->(usize,usize) transmute is outside the model",
          "Lean 4 proof (in-place permutation-to-transpositions invariant, mergeSort stability, fold of cell permutations) + differential correspondence"),
  "C17": ("Theorems: applying the swap trace with the implementor's swap_rows (any implementation satisfying the C13 spec) permutes whole rows (new row j = old row p[j]); sort_by_col collects the column through the C09 cursor and equals that with the stable permutation; the unstable variant for every permutation; key variants delegate to these (after the fix); out-of-range column panics. Correspondence as C16 for the five column variants.",
